@@ -1,0 +1,42 @@
+//go:build verif
+
+// Package verifhook provides named yield points for the verification harness.
+// It is compiled in only with the build tag `verif`; without the tag every
+// function here is an empty, inlineable no-op (see off.go).
+package verifhook
+
+import "sync/atomic"
+
+type hooks struct {
+	point func(site string)
+	stop  func(site string) bool
+}
+
+var current atomic.Pointer[hooks]
+
+// Set installs the hook functions (nil disables them).
+func Set(point func(site string), stop func(site string) bool) {
+	if point == nil && stop == nil {
+		current.Store(nil)
+		return
+	}
+	current.Store(&hooks{point: point, stop: stop})
+}
+
+// Point is a named program point at which the harness may yield or park the calling goroutine.
+func Point(site string) {
+	if h := current.Load(); h != nil && h.point != nil {
+		h.point(site)
+	}
+}
+
+// Stop asks the harness whether a background loop named site should terminate.
+func Stop(site string) bool {
+	if h := current.Load(); h != nil && h.stop != nil {
+		return h.stop(site)
+	}
+	return false
+}
+
+// Enabled reports whether the package was built with the verif tag.
+const Enabled = true
